@@ -300,21 +300,21 @@ Lemma go_db_maskLensKeyElement_matches_written :
   option_map (map fst) (cdb_db (mkDfile [] [])) =
   Some [go_db_maskLensKeyElement; go_db_maskLensKeyElementv4; go_db_maskLensKeyElementv6; go_dnsdata_FeaturesKey].
 Proof. tie go_db_maskLensKeyElement. Qed.
-(* ... and which of them cdbdriver.GetLocationByMap reads: with only that key present (holding the
-   single length 0) the lookup reaches the subnet get, without it the answer is no location *)
-Definition only (k : bytes) : list kv := [(k, [0])].
-Definition v4client : client := mkClient (Some first_v4) 32 32.
+(* ... and which of them cdbdriver.GetLocationByMap reads: a database holding one length set (the
+   single length 128) under key k and one /128 subnet of map 0 1 - the subnet is found exactly when
+   the driver reads the set under k *)
+Definition dbk (k : bytes) (a : N) : list kv := [(k, [128]); (net_key (0, 1) a 128, [9; 9])].
+Definition v4client : client := mkClient (Some Base.Ip.first_v4) 32 32.
 Definition v6client : client := mkClient (Some 1) 128 128.
-Lemma go_db_maskLensKeyElement_matches_read : forall m,
-  cdb_get_location false (only go_db_maskLensKeyElement) m v4client =
-    cdb_loop (fun a len => get (only go_db_maskLensKeyElement) (net_key m a len)) true 128 first_v4 [0] /\
-  cdb_get_location true (only go_db_maskLensKeyElementv4) m v4client =
-    cdb_loop (fun a len => get (only go_db_maskLensKeyElementv4) (net_key m a len)) true 128 first_v4 [0] /\
-  cdb_get_location true (only go_db_maskLensKeyElementv6) m v6client =
-    cdb_loop (fun a len => get (only go_db_maskLensKeyElementv6) (net_key m a len)) false 128 1 [0] /\
-  cdb_get_location true (only go_db_maskLensKeyElementv6) m v4client = Ok (None, 0) /\
-  cdb_get_location true (only go_db_maskLensKeyElementv4) m v6client = Ok (None, 0) /\
-  cdb_get_location false (only go_db_maskLensKeyElementv4) m v4client = Ok (None, 0).
+Lemma go_db_maskLensKeyElement_matches_read :
+  cdb_get_location false (dbk go_db_maskLensKeyElement Base.Ip.first_v4) (0, 1) v4client = Ok (Some [9; 9], 128) /\
+  cdb_get_location false (dbk go_db_maskLensKeyElement 1) (0, 1) v6client = Ok (Some [9; 9], 128) /\
+  cdb_get_location true (dbk go_db_maskLensKeyElementv4 Base.Ip.first_v4) (0, 1) v4client = Ok (Some [9; 9], 128) /\
+  cdb_get_location true (dbk go_db_maskLensKeyElementv6 1) (0, 1) v6client = Ok (Some [9; 9], 128) /\
+  cdb_get_location true (dbk go_db_maskLensKeyElementv6 Base.Ip.first_v4) (0, 1) v4client = Ok (None, 0) /\
+  cdb_get_location true (dbk go_db_maskLensKeyElementv4 1) (0, 1) v6client = Ok (None, 0) /\
+  cdb_get_location true (dbk go_db_maskLensKeyElement 1) (0, 1) v6client = Ok (None, 0) /\
+  cdb_get_location false (dbk go_db_maskLensKeyElementv4 Base.Ip.first_v4) (0, 1) v4client = Ok (None, 0).
 Proof. repeat split; tie go_db_maskLensKeyElement. Qed.
 Lemma go_dnsdata_FeaturesKey_matches_location : features_key = go_dnsdata_FeaturesKey.
 Proof. tie go_dnsdata_FeaturesKey. Qed.
@@ -375,7 +375,7 @@ Definition expiry_after_miss (now rnd : N) (r : request) : list N :=
   let '(c, _, _) :=
     serve unit unit unit (fun b => b) (fun _ _ => 0) (fun _ _ _ _ => tt) (fun _ _ => false) (fun _ _ => false)
           (fun _ _ _ => tt) (fun _ => false) (fun _ => tt) (mkCC true 1 0) tt [] now rnd r in
-  map (fun p => e_exp unit (snd p)) c.
+  map (fun p => e_exp (snd p)) c.
 Lemma go_dnsserver_cache_lifetime_matches : forall now rnd r,
   expiry_after_miss now rnd r = [now + go_dnsserver_cache_lifetime].
 Proof. tie go_dnsserver_cache_lifetime. Qed.
